@@ -74,6 +74,16 @@ class FileStandIn:
     def tell(self):
         return self.pos
 
+    def lines(self):
+        """the remaining lines, line ends kept, as iterating over a file gives them"""
+        rest = self.read()
+        nl = "\n" if isinstance(rest, str) else b"\n"
+        parts = rest.split(nl)
+        out = [p_ + nl for p_ in parts[:-1]]
+        if parts[-1]:
+            out.append(parts[-1])
+        return out
+
     def getvalue(self):
         return self.text
 
@@ -104,6 +114,16 @@ class Namespace:
 class _Return(Exception):
     def __init__(self, v):
         self.v = v
+
+
+class TaggedInt(int):
+    """a stand-in for an instance of an int subclass of the evaluated program (Locktime, Sequence): an int for all arithmetic, an instance of
+    the class for isinstance"""
+
+    def __new__(cls, v, mod, clsname):
+        o = int.__new__(cls, v)
+        o.tag = (mod, clsname)
+        return o
 
 
 class _GenExit(BaseException):
@@ -225,7 +245,7 @@ def _lz(f):
 
 _PURE_METHODS = {
     bytes: {"startswith", "endswith", "hex", "decode", "lstrip", "rstrip", "strip", "find", "rfind", "index", "count", "join", "ljust", "rjust", "zfill", "center", "split", "rsplit",
-            "replace", "partition", "rpartition", "upper", "lower", "isdigit", "isalpha", "isalnum"},
+            "replace", "partition", "rpartition", "upper", "lower", "isdigit", "isalpha", "isalnum", "translate"},
     str: {"startswith", "endswith", "lower", "upper", "strip", "lstrip", "rstrip", "find", "rfind", "index", "encode", "split", "rsplit", "splitlines", "partition", "rpartition", "count",
           "isdigit", "isalpha", "isalnum", "islower", "isupper", "isspace", "isidentifier", "replace", "format", "join", "zfill", "title", "capitalize", "casefold", "swapcase", "ljust", "rjust"},
     list: {"index", "count", "copy", "pop", "append", "extend", "insert", "remove", "clear", "reverse", "sort"},
@@ -290,7 +310,7 @@ class Evaluator:
                           "base64": Namespace(b64encode=_b64.b64encode, b64decode=_b64.b64decode),
                           "defaultdict": _co.defaultdict, "OrderedDict": _co.OrderedDict, "collections": Namespace(defaultdict=_co.defaultdict, OrderedDict=_co.OrderedDict),
                           "functools": Namespace(reduce=_ft.reduce, partial=_ft.partial, lru_cache=("ident",), cache=("ident",)), "reduce": _ft.reduce, "partial": _ft.partial,
-                          "lru_cache": ("ident",), "cache": ("ident",),
+                          "lru_cache": ("ident",), "cache": ("ident",), "sys": Namespace(byteorder=__import__("sys").byteorder, maxsize=__import__("sys").maxsize),
                           "operator": _operator_ns(), "itemgetter": __import__("operator").itemgetter,
                           "re": Namespace(compile=_re.compile, match=_re.match, fullmatch=_re.fullmatch, search=_re.search, findall=_re.findall, sub=_re.sub, split=_re.split,
                                           IGNORECASE=_re.IGNORECASE, I=_re.I)}
@@ -441,6 +461,8 @@ class Evaluator:
                     raise Undecided("del target")
         elif isinstance(s, ast.For):
             it = self._expr(s.iter, env, mod, cls)
+            if isinstance(it, FileStandIn):
+                it = it.lines()
             if not isinstance(it, (list, tuple, range, bytes, str, dict, IterStandIn)) and not hasattr(it, "__next__"):
                 raise Undecided("iteration over %s" % type(it).__name__)
             broke = False
@@ -532,8 +554,21 @@ class Evaluator:
                 v = list(v)   # unpacking consumes any iterable
             if not isinstance(v, (list, tuple, bytes, str)):
                 raise Undecided("unpacking %s" % type(v).__name__)
-            if any(isinstance(e, ast.Starred) for e in t.elts):
-                raise Undecided("starred unpacking")
+            stars = [i for i, e in enumerate(t.elts) if isinstance(e, ast.Starred)]
+            if stars:
+                # a, *rest, z = v: the starred name takes the list of what the others leave
+                i, after = stars[0], len(t.elts) - stars[0] - 1
+                if len(stars) > 1:
+                    raise Undecided("two starred targets")
+                if len(v) < len(t.elts) - 1:
+                    raise Raised("ValueError", t)
+                v = list(v) if not isinstance(v, (bytes, str)) else [v[j:j + 1] if isinstance(v, str) else v[j] for j in range(len(v))]
+                for e, x in zip(t.elts[:i], v[:i]):
+                    self._store(e, x, env, mod, cls)
+                self._store(t.elts[i].value, list(v[i:len(v) - after]), env, mod, cls)
+                for e, x in zip(t.elts[i + 1:], v[len(v) - after:]):
+                    self._store(e, x, env, mod, cls)
+                return
             if len(v) != len(t.elts):
                 raise Raised("ValueError", t)
             for e, x in zip(t.elts, v):
@@ -650,7 +685,11 @@ class Evaluator:
                 if r[1] in m2.classes:
                     return ClassRef(m2.name, r[1])
                 if r[1] in m2.constants:
+                    if (m2.name, r[1]) in self._const_cache:
+                        return self._const_cache[(m2.name, r[1])]
                     v = Folder(self.repo, m2.name).fold(m2.constants[r[1]])
+                    if isinstance(v, (list, dict, set, bytearray)) and not _has_unknown(v):
+                        self._const_cache[(m2.name, r[1])] = v   # a mutable module-level object (a memo table): ONE object per evaluation, as in Python
                     if _has_unknown(v):
                         # not a literal (a table of classes / functions, a comprehension over repository functions): evaluate its
                         # defining expression in the scope of its module
@@ -855,7 +894,7 @@ class Evaluator:
                 raise Undecided("super().%s" % e.attr)
             if isinstance(o, tuple) and o and o[0] in ("func", "method", "closure") and e.attr in ("cache_clear", "cache_info"):
                 return ("noop",)   # the evaluator never memoises: clearing a memo of the evaluated program has nothing to clear
-            if isinstance(o, type) and (o, e.attr) in ((int, "from_bytes"), (bytes, "fromhex"), (bytes, "join"), (str, "join")):
+            if isinstance(o, type) and (o, e.attr) in ((int, "from_bytes"), (bytes, "fromhex"), (bytes, "join"), (str, "join"), (bytes, "maketrans"), (str, "maketrans")):
                 return ("pyfunc", getattr(o, e.attr))
             for ty, ms in _PURE_METHODS.items():
                 if isinstance(o, ty) and e.attr in ms:
@@ -986,6 +1025,8 @@ class Evaluator:
                     if isinstance(t, ClassRef):
                         if isinstance(v, Obj) and v.mod != "builtins" and (t.mod, t.cls) in self.repo.mro(v.mod, v.cls):
                             return True
+                        if isinstance(v, TaggedInt) and (t.mod, t.cls) in self.repo.mro(*v.tag):
+                            return True
                     elif isinstance(t, type):
                         if not isinstance(v, (Obj, ClassRef)) and isinstance(v, t) and not (t is int and isinstance(v, bool) and False):
                             return True
@@ -1022,6 +1063,13 @@ class Evaluator:
                 if isinstance(v, Obj) and v.mod != "builtins":
                     return v.attrs   # the object's own dictionary: changes to it are changes to the object
                 raise Undecided("vars() of %s" % type(v).__name__)
+            if nm == "setattr" and len(e.args) == 3:
+                o = self._expr(e.args[0], env, mod, cls)
+                an = self._expr(e.args[1], env, mod, cls)
+                if not isinstance(an, str) or not isinstance(o, Obj) or o.mod == "builtins":
+                    raise Undecided("setattr on %s" % type(o).__name__)
+                o.attrs[an] = self._expr(e.args[2], env, mod, cls)
+                return None
             if nm in ("getattr", "hasattr") and len(e.args) in (2, 3):
                 o = self._expr(e.args[0], env, mod, cls)
                 an = self._expr(e.args[1], env, mod, cls)
